@@ -333,8 +333,14 @@ def _warp_knots_table(ctx: Ctx, rel: str):
                     cn = call_name(x)
                     if cn == "_get_tensor_eps":
                         return EPS
-                    if cn == "polyharmonic_spline" and len(x.args) >= 3:
-                        seen["dst"], seen["src"] = (np.asarray(holder["it"].eval(a_, env), dtype=object) for a_ in x.args[:2])
+                    if cn == "polyharmonic_spline" and len(x.args) + len(x.keywords) >= 3:
+                        # (train points, train values: positionally or by keyword)
+                        sp_ = pkg.func(f"{MOD}::polyharmonic_spline")
+                        by_ = {p_.name: a_ for p_, a_, _ in bind_args(x, sp_, False).pairs}
+                        pn_ = [p_.name for p_ in sp_.params[:2]]
+                        if not all(k_ in by_ for k_ in pn_):
+                            raise NotEvaluable("spline arguments")
+                        seen["dst"], seen["src"] = (np.asarray(holder["it"].eval(by_[k_], env), dtype=object) for k_ in pn_)
                         return np.zeros((1, T, 1), dtype=object)
                 return None
             holder = {}
